@@ -2076,9 +2076,24 @@ def translate_tables(repo):
             raise Untranslatable('compile_size_comp changed')
         return 'def compileSizeComp (c : Comparison Size) : Text :=\n  formatCmp2 c sizeMatching (fun s => nat (exactByteSize s))'
     emit('compileSizeComp', 'compile_size_comp', 'scheme/target_scheme.rs', size_comp_fn)
+
+    # ---- compile_type_list_comp
+    def type_list_fn(it):
+        txt = text_of(it.body)
+        pat = (r'let comps : Vec < String > = filetypes \. iter \( \) \. map \( \| tp \| \{ format ! \( (?P<el>"(?:[^"\\]|\\.)*") , '
+               r'S_IFMT \. bits \( \) , tp \. octal \( \) \. bits \( \) \) \} \) \. collect \( \) ; '
+               r'match comps \. len \( \) \{ 1 => buffer \. push_str \( comps \. first \( \) \. unwrap \( \) \) , '
+               r'_ => buffer \. push_str \( & format ! \( (?P<many>"(?:[^"\\]|\\.)*") , comps \. join \( (?P<sep>"(?:[^"\\]|\\.)*") \) \) \) , \}')
+        m = re.fullmatch(pat, txt)
+        if not m: raise Untranslatable('compile_type_list_comp does not have the shape the model was transcribed from')
+        if 'S_IFMT' not in consts: raise Untranslatable('S_IFMT constant')
+        el = join_pieces(fmt_named(json.loads(m.group('el')), None), ['nat %d' % consts['S_IFMT'], 'nat (fileTypeOctal tp)'])
+        many = join_pieces(fmt_named(json.loads(m.group('many')), None), ['joinWith (%s) comps' % lean_cl(json.loads(m.group('sep')))])
+        return ('def compileTypeList (l : List FileType) : Text :=\n  let comps := l.map fun tp => %s\n  match comps with\n  | [c] => c\n  | _ => %s' % (el, many))
+    emit('compileTypeList', 'compile_type_list_comp', 'scheme/target_scheme.rs', type_list_fn)
     # dependencies first, so that every generated definition uses the generated ones below it
     for name in ['schemeEscape', 'isPattern', 'terminatorEscape', 'templateEscape', 'Size.mult', 'TimeSpec.secs', 'FileType.octal', 'permValue', 'formatCmp', 'sizeMatching', 'compilePermCheck',
-                 'exactByteSize', 'compileSizeComp', 'specialLiteral', 'placeholder', 'snippetBody', 'compileFormat', 'hasAction', 'complexFrames', 'compileTest', 'compileAction',
+                 'exactByteSize', 'compileSizeComp', 'compileTypeList', 'specialLiteral', 'placeholder', 'snippetBody', 'compileFormat', 'hasAction', 'complexFrames', 'compileTest', 'compileAction',
                  'compileExpr', 'compile', 'scheme', 'explainTable', 'contextStep', 'dispatchDecision', 'runOptionsUpdate', 'bindings']:
         out += chunks.get(name, ['-- UNTRANSLATED %s: not attempted' % name])
     return out, report
